@@ -9,7 +9,7 @@ from concurrent.futures import ThreadPoolExecutor
 from . import tlc, single_exec as SX
 from .common import worker_pool, Run, Machinery
 
-ARR = {"NTC": 3, "TParent": "<-ArrTParent", "TNest": "<-ArrTNest", "NestArg": 1, "NSC": 4, "Meta": "<-ArrMeta", "SParent": "<-ArrSParent"}
+ARR = {"NTC": 3, "TParent": "<-ArrTParent", "TNest": "<-ArrTNest", "NestArg": 1, "TClr": "<-ArrTClr", "NSC": 4, "Meta": "<-ArrMeta", "SParent": "<-ArrSParent"}
 ASSUME = [
     "the metaclass tables are private: state is inferred by TLC from the returned objects (numbered by first appearance), "
     "their exact class, and per-instance __init__ counters / first arguments recorded by the harness's own base class",
